@@ -50,7 +50,7 @@ def intervals(k, tier):
 def plan(tier):
     if tier == "quick":
         specs = [(2, [("dense", 1, 3)], CONF_Q + CONF_AUTO, "all"),
-                 (2, [("dense", 4, 5)], CONF_Q, "some"),
+                 (2, [("dense", 4, 5)], CONF_Q[::2] + CONF_Q[9:], "some"),
                  (3, [("dense", 1, 3)], CONF_Q + CONF_AUTO, "some"),
                  (3, [("near", 2, 2)], CONF_Q[:6], "some"),
                  (4, [("dense", 1, 2)], CONF_Q4, "some")]
